@@ -5,69 +5,115 @@ On every check run `tools/bridge.py:regen_bridge` calls `translate(repo, scratch
 AST (`clang++-14 -std=gnu++17 -DNDEBUG -fsyntax-only -Xclang -ast-dump=json -Xclang -ast-dump-filter=<ns>`) of a tiny
 translation unit that #includes the CURRENT sources of the selected functions, symbolically executes the selected
 function bodies and prints them as Lean definitions (core Lean + RomeaModel.Scalar only), namespace `Romea.Src.<Cxx>`.
+`tools/regen_all_bridges.py` re-translates every bridged property and compares with the committed generated files.
 
-Encoding (generic, no per-function configuration beyond the function's name):
+Encoding (generic: per function only its name — and, for templates, the instantiation — is configured; a few spec-wide options,
+listed at the end, select between alternative readings of the same C++ construct):
+
+Functions, parameters, results
 * parameters of a translated function = every scalar leaf lvalue path it READS from its C++ parameters / `this`
   (`this->ellipsoid_.a` -> `ellipsoid__a`, `g.latitude` -> `g_latitude`, `v[0]` -> `v_0`, `m(1,0)` -> `m_1_0`), ordered
-  alphabetically; a leading `fuel : Nat` when the function (or a callee) contains a loop;
+  alphabetically; a leading `fuel : Nat` when the function (or a callee) contains a loop that runs on fuel;
 * result = the returned scalar, or the tuple of the leaves of the returned aggregate (Eigen vector / matrix / struct;
   leaves sorted by index / field name), followed by the leaves of `this` / non-const reference parameters that are
-  WRITTEN anywhere in the function (sorted by name); `Option` of that when the function contains a loop (`none` = fuel
-  exhausted);
-* `double`/`float` -> type variable α (a second variable δ for `double` when both occur in one function, with
-  `DoubleConv.up/down` on the conversions), integers -> `Int`, `bool` -> `Bool` (conditions are decidable `Prop`s);
-* C++ association order and evaluation structure are kept (`let` per declaration / assignment, SSA names `x'1`, …);
-* literals are read from the SOURCE TEXT at the AST's offsets (`1e-11` -> `OfScientific.ofScientific 1 true 11`,
-  `1.0` -> `((1 : Nat) : α)`, macro `M_PI` -> `Trans.pi`); namespace-scope constants become generated definitions;
-* `if`/else-if/`?:` -> `if then else` (assigned variables merged through a tuple), early `return` -> if/else expression,
-  `while` / `for` (with `break` / `continue`) -> auxiliary structurally recursive function on fuel returning `Option` of the
-  loop-carried variables;
-* libm calls -> `Romea.Trans.*` (`pow(x, 2)` -> `x * x`, `M_PI_2`/`M_PI_4` -> `Trans.pi / 2`, `/ 4`); `std::min/max`;
-  `std::numeric_limits<T>::epsilon()/max()/lowest()/min()` -> `Limits.*`; calls to library functions (methods, constructors incl.
-  base-class and delegating initialisers, template instantiations) with a body in the TU are translated too and called;
-* `enum` values -> their underlying integers; `std::string` -> `String` (`+` -> `++`); `x.front()`, `x.back()`, `x.begin()->…` of a
-  standard container -> a fixed location (path component); `std::lock_guard` declarations are skipped; functions listed in the
-  spec's `uninterpreted` become function-typed parameters, those in `externs` are mapped to a named Lean function;
-* Eigen: `v[i]`, `v(i)`, `m(i,j)`, `.x()…`, fixed-size constructors, `Identity()/Zero()/Ones()`, `.norm()/.squaredNorm()` (left-to-right
-  sum) and the fixed-size product `A * B` (`(a0*b0 + a1*b1) + a2*b2` per coefficient); nothing else of Eigen;
-* a spec entry may restrict a function to some written members (`outputs`): dead code is then removed;
-* anything else (function-local `static`, writes to globals, unknown calls, unsupported statements) makes the function
-  UNTRANSLATABLE: the generated file then holds a comment with the reason and no definition of that name, so that the
-  bridge theorem about it no longer compiles.
-Only the Python standard library is used.
-
-Phase 2 additions (builder b1: C13, C20, C14, C11), all generic:
-* a spec entry may name the class template specialisation a method belongs to (`record`: `GridIndexMapping<double, 2>`); members of
-  instantiated class templates and out-of-class explicit specialisations (`template<> void RayCasting<double, 2>::next`) are found;
-* Eigen coefficient-wise expressions on fixed-size objects, coefficient by coefficient: `.array()` / `.matrix()` (also as assignment
-  targets), `a + b`, `a - b`, `a * s`, `s * a`, `a / s`, `a / b` (CwiseBinaryOp), unary minus, `< <= > >= == !=` (coefficients are `Prop`s),
-  `floor ceil abs sqrt …` (free functions and members), `.min(b) .max(b) .cwiseMin .cwiseMax` (= `std::min` / `std::max`),
-  `.cwiseProduct .cwiseQuotient`, `.template cast<T>()`, `T::Constant(x)`, `.transpose()`, `.col(j) .row(i) .head(n) .tail(n)
-  .segment(i, n) .block<R, C>(i, j) .block(i, j, R, C)` with constant arguments (a block of a variable reads only its coefficients;
-  `M.block<R, C>(i, j) = expr;` writes them one by one), the reductions `.all() .any()` (conjunction / disjunction), `.prod()` of
-  booleans (conjunction), `.sum() .prod() .minCoeff() .maxCoeff()` (left-to-right — trusted reading, like `norm()`), the statements
-  `a += b`, `a -= b`, `a *= s`, `a /= s`, `.setConstant(x) .setZero() .setOnes()`.  A scalar operand is converted to the expression's
-  coefficient type; a floating LITERAL operand of another floating type (`arrayOfFloat - 0.5`, `float(0.5)`) is read at the target type
-  when its decimal value is exact there (24-bit significand), so the `float` instantiations keep ONE scalar type;
-* `const T & f() const { return member_; }` is the member itself (as an lvalue and for Eigen-typed values);
-* `std::vector<scalar>` is a Lean `List` (type codes `la ld li lb`): `v[i]` (read) is `vecGet? v i`, `v[i] = x` is `vecSet? v i x`,
-  both `Option`-valued — the translated function then returns `Option`, `none` = an index outside the vector (undefined behaviour in
-  C++) —, `.size() .empty() .resize(n) .clear() .push_back(x)`, constructors `()` / `(n)`; `std::vector<std::vector<scalar>>(N)` with a
-  constant N is an aggregate of N lists addressed by constant indices; `std::vector` of fixed-size Eigen vectors of one scalar type
-  (2 to 4 coefficients) is a `List` of coordinate tuples (`L2a`, …): `.size()`, `v[i]` (read), `const T & p = v[i];` (bound by value).
-  The helper definitions `vecGet? vecSet? vecResize` are emitted into the generated file when used;
-* `for (T i = a; i < b; ++i)` whose body neither assigns `i` nor breaks: with constant `a`, `b` (at most 16 iterations) the loop is
-  UNROLLED (`i` is then a constant: `v[i]`, `m.col(i)` …); otherwise, if `b` is loop-invariant, the auxiliary function recurses on the
-  trip count `(b - a).toNat` instead of on fuel and does not re-test the condition (no `fuel` parameter; `some` at count 0); the
-  init statement may declare further variables (`for (size_t n = 0, N = v.size(); n < N; ++n)`);
-* integer constant expressions (indices, block sizes) are evaluated through `const` / `static constexpr` variables and template
-  arguments by declaration id; `std::numeric_limits<Alias>::max()` with a type alias takes the floating type of the call;
-* `++x` / `--x` / `x++` / `x--` on integers used as VALUES (`if (n > 0 && --n == 0)`): `if (a && b) S else T` with a side effect in `b`
-  is translated as `if (a) { if (b) S else T } else T`; conditionally evaluated operands still refuse side effects;
-* a callee that indexes with an integer PARAMETER (`step_(cellIndexes, axis)` with `v[axis]`) is translated once per constant
-  argument of the call (`step__double_2_c0`, …);
+  WRITTEN anywhere in the function (sorted by name); `Option` of that when the function contains a loop on fuel (`none` = fuel
+  exhausted) or a checked container access (`none` = index outside the container);
+* a spec entry selects a function by qualified name (`cxx`), optionally by a substring of its type (`sig`), its template arguments
+  (`targs`) and the class template specialisation it belongs to: `record` (exact name, `GridIndexMapping<double, 2>`) or `cls`
+  (substring of the class's name with template arguments); members of instantiated class templates and out-of-class explicit
+  specialisations (`template<> void RayCasting<double, 2>::next`) are found; `suffix` tells instantiations apart in Lean;
+  `outputs` restricts a function to some written members (dead code is then removed);
+* calls to library functions (methods, constructors incl. base-class and delegating initialisers, template instantiations) with a
+  body in the TU are translated too and called; a callee that indexes with an integer PARAMETER (`step_(cellIndexes, axis)` with
+  `v[axis]`) is translated once per constant argument of the call (`step__double_2_c0`, …); `const T & f() const { return member_; }`
+  is the member itself (as an lvalue and for Eigen-typed values); functions listed in the spec's `uninterpreted` become
+  function-typed parameters, those in `externs` are mapped to a named Lean function;
 * a pointer (member / parameter) to a class object with a definition in the TU stands for that object (`p->f` is the leaf `p_f`):
   assumes it is not null and aliases nothing else the function touches; assigning such a pointer stays untranslatable.
+
+Scalars
+* `double`/`float` -> type variable α (a second variable δ for `double` when both occur in one function, with
+  `DoubleConv.up/down` on the conversions), integers -> `Int`, `bool` -> `Bool` (conditions are decidable `Prop`s), `enum` values ->
+  their underlying integers, `std::string` -> `String` (`+` -> `++`);
+* C++ association order and evaluation structure are kept (`let` per declaration / assignment, SSA names `x'1`, …);
+* literals are read from the SOURCE TEXT at the AST's offsets (`1e-11` -> `OfScientific.ofScientific 1 true 11`,
+  `1.0` -> `((1 : Nat) : α)`, macro `M_PI` -> `Trans.pi`); namespace-scope constants become generated definitions; a floating LITERAL
+  converted to another floating type (`arrayOfFloat - 0.5`, `float(0.5)`) is read at the target type when its decimal value is exact
+  there (24-bit significand), so the `float` instantiations keep ONE scalar type; an integral floating literal converted to an
+  integer type (`sumOfData_(0.0)`) is that integer;
+* integer arithmetic is unbounded; with the spec option `unsigned_wrap`, `+ - *`, unary minus, `++` / `--` and compound assignments
+  computed in a 32/64-bit UNSIGNED type (also as coefficients of Eigen objects) are reduced modulo 2^width, integral conversions to
+  an unsigned type too (`size_t(-1)` = 2^64 - 1), conversions to a narrower or same-width signed type from a type that does not fit
+  are two's complement; signed arithmetic stays unbounded (overflow is undefined behaviour);
+* integer constant expressions (indices, block sizes) are evaluated through `const` / `static constexpr` variables and template
+  arguments (`SubstNonTypeTemplateParmExpr` is its substituted value) by declaration id;
+* libm calls -> `Romea.Trans.*` (`pow(x, 2)` -> `x * x`, `M_PI_2`/`M_PI_4` -> `Trans.pi / 2`, `/ 4`); `std::min/max`;
+  `std::numeric_limits<T>::epsilon()/max()/lowest()/min()` -> `Limits.*` (with a type alias for T the floating type is that of the
+  call); `numeric_limits<T>::quiet_NaN()` is `0 / 0` (a NaN at the IEEE types and at RN; junk at the totalised reals);
+* scalar wrappers: `std::atomic<scalar>` is its value (`load` / implicit conversion = read, `store` / `=` = write — a SEQUENTIAL
+  reading only); `std::chrono::duration<integer, period>` is its `count()` (an `Int`): `count()`, `zero()`, value-initialisation,
+  `+` / `-` / comparisons of two durations of the same type;
+* `++x` / `--x` / `x++` / `x--` on integers used as VALUES (`if (n > 0 && --n == 0)`, `if (++c[a] < end)`): the variable is updated in
+  the environment of the enclosing evaluation, the result is the new (prefix) / old (postfix) value; `if (a && b) S else T` with a
+  side effect in `b` is translated as `if (a) { if (b) S else T } else T`; conditionally evaluated operands still refuse side
+  effects. Two renderings (spec key `incr_encoding`): `'inline'` (default) substitutes the term `x + 1`; `'let'` binds the new value
+  of an unconditionally evaluated prefix form with a `let` (`let c_0'1 := c_0 + 1`) and uses the bound name.
+
+Control flow
+* `if`/else-if/`?:` -> `if then else` (assigned variables merged through a tuple), early `return` -> if/else expression;
+* `while` / `for` (with `break` / `continue`) -> auxiliary structurally recursive function on fuel returning `Option` of the
+  loop-carried variables; the init statement of a `for` may declare several variables;
+* `for (T i = a; i < b; ++i)` whose body neither assigns `i` nor breaks: with constant `a`, `b` (at most 16 iterations) the loop is
+  UNROLLED (`i` is then a constant: `v[i]`, `m.col(i)` …); otherwise, if `b` is loop-invariant, the auxiliary function recurses on the
+  trip count `(b - a).toNat` instead of on fuel and does not re-test the condition (no `fuel` parameter; `some` at count 0);
+* spec option `fold_constant_conditions`: comparisons of integer constants (template parameters: `if (DIM == 3)`, `(a == axis) ? x : y`)
+  are decided at translation time, only the taken branch is translated; spec option `unroll_constant_loops` (needs the former):
+  integer constants are propagated through non-const locals, and any `for` / `while` whose condition is such a decided comparison on
+  entry is UNROLLED (at most 16 passes; the condition must stay decided on every pass; `break` / `continue` are supported and
+  duplicate the code that follows); inside an unrolled loop a run-time-looking Eigen index `v[a]` is the constant of that pass.
+  Order of preference for a loop: constant bounds (unrolled) — decided condition (unrolled, with the option) — counted — fuel.
+
+Eigen (fixed-size objects only; an object is the family of its coefficients)
+* `v[i]`, `v(i)`, `m(i,j)`, `.x()…`, fixed-size constructors, `Identity()/Zero()/Ones()`, `T::Constant(x)`, `.norm()/.squaredNorm()`
+  (left-to-right sum), `a.dot(b)`, the fixed-size product `A * B` (`(a0*b0 + a1*b1) + a2*b2` per coefficient);
+* coefficient-wise expressions, coefficient by coefficient: `.array()` / `.matrix()` (also as assignment targets), `a + b`, `a - b`,
+  `a * s`, `s * a`, `a / s`, `a / b` (CwiseBinaryOp), unary minus, `< <= > >= == !=` (coefficients are `Prop`s), `floor ceil abs sqrt …`
+  (free functions and members), `.min(b) .max(b) .cwiseMin .cwiseMax` (= `std::min` / `std::max`), `.cwiseProduct .cwiseQuotient`,
+  `.template cast<T>()`, `.transpose()`, `.col(j) .row(i) .head(n) .tail(n) .segment(i, n) .block<R, C>(i, j) .block(i, j, R, C)` with
+  constant arguments (a block of a variable reads only its coefficients; `M.block<R, C>(i, j) = expr;` writes them one by one); a
+  scalar operand is converted to the expression's coefficient type;
+* reductions `.all() .any()` (conjunction / disjunction), `.prod()` of booleans (conjunction), `.sum() .prod() .minCoeff() .maxCoeff()`
+  (left to right — a trusted reading of Eigen's redux, like `norm()`); statements `a += b`, `a -= b`, `a *= s`, `a /= s`,
+  `.setConstant(x) .setZero() .setOnes()`; nothing else of Eigen.
+
+Standard containers
+* `x.front()`, `x.back()`, `x.begin()->…` of a standard container of aggregates -> a fixed location (path component); `std::lock_guard`
+  declarations are skipped;
+* sequence containers of scalars are Lean lists (type codes `la ld li lb`: `List α`, `List δ`, `List Int`, `List Bool`; front = head),
+  a leaf like any scalar; mutators only as statements; a container written inside a loop is loop-carried. `std::vector<scalar>` has
+  TWO encodings, selected by the spec key `vector_encoding`:
+  - `'checked'` (default): `v[i]` (read) is `vecGet? v i`, `v[i] = x` is `vecSet? v i x`, both `Option`-valued — the translated function
+    then returns `Option`, `none` = an index outside the vector (undefined behaviour in C++) —, `.size()` -> `(v.length : Int)`,
+    `.empty() .resize(n) .clear() .push_back(x)`, constructors `()` / `(n)` / copy; `std::vector<std::vector<scalar>>(N)` with a
+    constant N is an aggregate of N lists addressed by constant indices; `std::vector` of fixed-size Eigen vectors of one scalar type
+    (2 to 4 coefficients) is a `List` of coordinate tuples (type codes `L2a`, …): `.size()`, `v[i]` (read), `const T & p = v[i];` (bound
+    by value). The helper definitions `vecGet? vecSet? vecResize` are emitted into the generated file when used;
+  - `'plain'`: `size()` -> `((List.length v : Nat) : Int)`, `empty()`, `v[i]` / `at(i)` -> `List.getD v (Int.toNat i) 0` (an out-of-range
+    access is undefined behaviour: the default stands for it; the function stays total), `front()`, `back()`, `v[i] = x` / `v[i] op= x`
+    -> `List.set`, `push_back` -> `v ++ [x]`, `pop_back`, `clear()` -> `[]`, `resize(n)` (zeros appended), `reserve` -> nothing, default /
+    copy construction. With the spec option `opaque_elements` a vector of a NON-scalar T (Eigen vectors) is a `List τ` over an
+    abstract element type τ: elements can only be copied in (`push_back(x)`, `v[i] = x` with x a variable, which then is a parameter of
+    type τ) and returned (`return v[i]` -> the checked read `v[i]?` : `Option τ`);
+  `std::queue<T>` / `std::deque<T>` are always read as in `'plain'` (`push` -> `v ++ [x]`, `pop()` / `pop_front()` -> `List.drop 1`).
+
+Anything else (function-local `static`, writes to globals, unknown calls, unsupported statements) makes the function
+UNTRANSLATABLE: the generated file then holds a comment with the reason and no definition of that name, so that the
+bridge theorem about it no longer compiles.
+
+Spec-wide keys, besides `id sources headers extra filter extra_filters macros imports opens functions uninterpreted externs strip_ns`:
+`vector_encoding` ('checked' | 'plain'), `opaque_elements`, `incr_encoding` ('inline' | 'let'), `unsigned_wrap`,
+`fold_constant_conditions`, `unroll_constant_loops`. The defaults give the first-listed / option-less reading.
+Only the Python standard library is used.
 """
 import json
 import os
@@ -320,9 +366,10 @@ class TU:
             f = os.path.relpath(f, self.repo)
         return '%s:%s' % (f, loc.get('line', '?'))
 
-    def find_function(self, cxx, sig=None, targs=None, record=None):
+    def find_function(self, cxx, sig=None, targs=None, record=None, cls=None):
         """all function definitions whose qualified name ends with `cxx` (optionally: whose type contains `sig`,
-        whose template arguments are `targs`, whose class (template specialisation) is `record`, e.g. `Interval<double, 2>`)"""
+        whose template arguments are `targs`, whose class (template specialisation) is `record`, e.g. `Interval<double, 2>`,
+        or has a name containing `cls`)"""
         out = []
         for fid, d in self.funcs.items():
             q = self.fqual[fid]
@@ -338,6 +385,8 @@ class TU:
                     rq = self.record_of(d).get('_qual', '')
                     if not (rq == record or rq.endswith('::' + record)):
                         continue
+                if cls is not None and cls not in ((self.records.get(self.parent.get(fid) or d.get('parentDeclContextId')) or {}).get('_qual', '')):
+                    continue
                 out.append(d)
         return out
 
@@ -393,7 +442,8 @@ STRING_TYPES = ('std::string', 'std::basic_string<char>', 'basic_string<char>', 
 
 
 def classify(t):
-    """'double' | 'float' | 'int' | 'uint' | 'bool' | 'string' | 'agg' | 'void'"""
+    """'double' | 'float' | 'int' | 'uint' | 'bool' | 'string' | 'agg' | 'void' | 'list' (std::vector of scalars, checked
+    encoding) | 'seq' (std::queue / std::deque, and std::vector in the plain encoding); see `vector_encoding` in the module docstring"""
     t = strip_cv(t)
     if t in STRING_TYPES or re.match(r'^(const )?char( const)? ?(\*|\[\d*\])$', t):
         return 'string'
@@ -407,10 +457,15 @@ def classify(t):
         return 'bool'
     if t == 'void':
         return 'void'
+    w = scalar_wrapper(t)
+    if w is not None:
+        return classify(w)
     if INT_RE.match(t):
         return 'uint' if (t.startswith('unsigned') or 'size_t' in t or re.match(r'^(std::)?uint', t)) else 'int'
-    if vec_elem(t) is not None and classify(vec_elem(t)) in ('double', 'float', 'int', 'uint', 'bool'):
-        return 'list'      # std::vector of scalars (phase 2): a Lean `List`
+    if list_elem(t) is not None and (LIST_OPTS['encoding'] == 'plain' or not VEC_RE.match(t)):
+        return 'seq'       # sequence container in the plain encoding (std::queue / std::deque: always)
+    if LIST_OPTS['encoding'] == 'checked' and vec_elem(t) is not None and classify(vec_elem(t)) in ('double', 'float', 'int', 'uint', 'bool'):
+        return 'list'      # std::vector of scalars in the checked encoding
     return 'agg'
 
 
@@ -421,6 +476,93 @@ def vec_elem(t):
     """element type of a `std::vector<T>` type (None for every other type)"""
     m = VEC_RE.match(strip_cv(t))
     return m.group(1) if m else None
+
+
+# ---- scalar wrappers: std::atomic<scalar> is its value (load / store = read / write: sound for a SEQUENTIAL reading only),
+#      std::chrono::duration<integer, period> is its count() in its own period
+WRAP_RE = re.compile(r'^(?:std::)?(atomic|chrono::duration)<')
+
+
+def scalar_wrapper(t):
+    t = strip_cv(t)
+    m = WRAP_RE.match(t)
+    if not m:
+        return None
+    el = first_template_arg(t)
+    if WRAP_RE.match(strip_cv(el)) or LIST_RE.match(strip_cv(el)):
+        return None
+    c = classify(el)
+    if m.group(1) == 'atomic':
+        return el if c in ('int', 'uint', 'double', 'float', 'bool') else None
+    return el if c in ('int', 'uint') else None
+
+
+def is_duration(t):
+    t = strip_cv(t)
+    return bool(re.match(r'^(?:std::)?chrono::duration<', t)) and scalar_wrapper(t) is not None
+
+
+def is_atomic(t):
+    t = strip_cv(t)
+    return bool(re.match(r'^(?:std::)?atomic<', t)) and scalar_wrapper(t) is not None
+
+
+# ---- sequence containers as Lean lists (std::vector / std::queue / std::deque of scalars; of opaque elements when the spec asks)
+LIST_OPTS = {'opaque': False, 'encoding': 'checked'}      # set per spec by translate()
+LIST_RE = re.compile(r'^(?:std::)?(?:__cxx11::)?(vector|queue|deque)<')
+
+
+def first_template_arg(t):
+    i = t.index('<') + 1
+    d, j = 0, i
+    while j < len(t):
+        ch = t[j]
+        if ch == '<':
+            d += 1
+        elif ch == '>':
+            if d == 0:
+                break
+            d -= 1
+        elif ch == ',' and d == 0:
+            break
+        j += 1
+    return t[i:j].strip()
+
+
+def list_elem(t):
+    """C++ element type of a sequence container type translated as a Lean list (None: not such a type)"""
+    t = strip_cv(t)
+    if not LIST_RE.match(t):
+        return None
+    el = first_template_arg(t)
+    if LIST_RE.match(strip_cv(el)):
+        return None
+    c = classify(el)
+    if c in ('int', 'uint', 'double', 'float'):
+        return el
+    if c == 'agg' and LIST_OPTS['opaque']:
+        return el
+    return None
+
+
+def uwidth(t):
+    """bit width of an unsigned C++ integer type whose arithmetic is not promoted to `int` (None otherwise)"""
+    t = strip_cv(t)
+    if t in ('unsigned long', 'unsigned long long', 'size_t', 'std::size_t', 'uint64_t', 'std::uint64_t', 'unsigned long int',
+             'unsigned long long int'):
+        return 64
+    if t in ('unsigned int', 'unsigned', 'uint32_t', 'std::uint32_t'):
+        return 32
+    return None
+
+
+def swidth(t):
+    t = strip_cv(t)
+    if t in ('long', 'long long', 'long int', 'long long int', 'int64_t', 'std::int64_t', 'ptrdiff_t', 'std::ptrdiff_t', 'Eigen::Index'):
+        return 64
+    if t in ('int', 'int32_t', 'std::int32_t', 'signed', 'signed int'):
+        return 32
+    return None
 
 
 LEAN_KEYWORDS = {'at', 'from', 'end', 'open', 'fun', 'in', 'let', 'have', 'show', 'then', 'else', 'if', 'do', 'by', 'with', 'match',
@@ -496,8 +638,12 @@ class Sc:
         return 'Sc(%s:%s)' % (self.t, self.ty)
 
 
-TY_LEAN = {'a': 'α', 'd': 'δ', 'i': 'Int', 'b': 'Bool', 's': 'String', 'la': 'List α', 'ld': 'List δ', 'li': 'List Int', 'lb': 'List Bool'}
-for _n in (2, 3, 4):      # std::vector of fixed-size Eigen vectors: lists of coordinate tuples (phase 2)
+TY_LEAN = {'a': 'α', 'd': 'δ', 'i': 'Int', 'b': 'Bool', 's': 'String',
+           # lists (std::vector / std::queue / std::deque) of scalars / integers / booleans
+           'la': 'List α', 'ld': 'List δ', 'li': 'List Int', 'lb': 'List Bool',
+           # plain encoding with `opaque_elements`: list of opaque elements τ; an element of it; its checked read
+           'le': 'List τ', 'e': 'τ', 'oe': 'Option τ'}
+for _n in (2, 3, 4):      # checked encoding: std::vector of fixed-size Eigen vectors = lists of coordinate tuples
     for _c, _s in (('a', 'α'), ('d', 'δ'), ('i', 'Int')):
         TY_LEAN['L%d%s' % (_n, _c)] = 'List (%s)' % ' × '.join([_s] * _n)
 CLASS_ORDER = ['Add', 'Sub', 'Mul', 'Div', 'Neg', 'LT', 'LE', 'DecidableLT', 'DecidableLE', 'DecidableEq', 'NatCast', 'IntCast',
@@ -734,9 +880,12 @@ class Translator:
             return 'b'
         if c == 'string':
             return 's'
+        if c == 'seq':
+            el = list_elem(ctype)
+            return 'l' + ('e' if classify(el) == 'agg' else self.tyvar(frame, el))
         if c == 'list':
             return 'l' + self.tyvar(frame, vec_elem(ctype))
-        if c == 'agg' and vec_elem(ctype) is not None:      # std::vector of small fixed-size vectors of one scalar type
+        if c == 'agg' and vec_elem(ctype) is not None and LIST_OPTS['encoding'] == 'checked':      # std::vector of small fixed-size vectors of one scalar type
             sh = self.shape_of(vec_elem(ctype))
             tys = set(self.tyvar(frame, st) for _, st in sh)
             if 2 <= len(sh) <= 4 and len(tys) == 1 and list(tys)[0] in ('a', 'd', 'i') and all(len(p_) == 1 for p_, _ in sh):
@@ -927,6 +1076,11 @@ class Translator:
         key = (root, tuple(path))
         if env.outer is not None:
             osc = self.read_leaf(env.outer, root, path, ty)
+            if self.spec.get('unroll_constant_loops') and osc.ty == 'i' and getattr(osc, 'lit', None) is not None:
+                # an integer constant of the enclosing code (an unrolled loop's counter) that the loop does not assign: the constant
+                sc = sc_lit(Sc(str(osc.lit) if osc.lit >= 0 else '(%d)' % osc.lit, 'i'), osc.lit)
+                self.store(env, root, path, sc)
+                return sc
             nm = env.frame.param(key, name, osc.ty, arg=osc.t)
             sc = Sc(nm, osc.ty)
         else:
@@ -1034,6 +1188,8 @@ class Translator:
         raise Untranslatable('scalar used as a condition')
 
     def as_bool(self, v):
+        if v.ty == 'p' and getattr(v, 'lit', None) in (True, False) and v.t in ('True', 'False'):
+            return sc_lit(Sc('true' if v.lit else 'false', 'b'), v.lit)
         if v.ty == 'b':
             return v
         if v.ty == 'p':
@@ -1076,14 +1232,22 @@ class Translator:
     def eval(self, n, env, pre):
         frame = env.frame
         k = n.get('kind')
-        if k == 'SubstNonTypeTemplateParmExpr':
-            return self.eval(n['inner'][-1], env, pre)
+        if k == 'SubstNonTypeTemplateParmExpr' and n.get('inner'):
+            return self.eval(n['inner'][-1], env, pre)      # [the parameter's declaration, the substituted value]
         if k in TRANSPARENT:
             return self.eval(n['inner'][0], env, pre)
         if k in ('ImplicitCastExpr', 'CStyleCastExpr', 'CXXStaticCastExpr', 'CXXFunctionalCastExpr', 'CXXConstCastExpr'):
             return self.eval_cast(n, env, pre)
         if k == 'CXXOperatorCallExpr' and self.is_vec_elem(n):      # phase 2: `v[i]` of a std::vector of scalars
             return self.vec_read(n, env, pre)
+        if k == 'CXXMemberCallExpr' and self.list_method(n) is not None:
+            return self.eval_list_call(n, env, pre)
+        if k in ('CXXConstructExpr', 'CXXTemporaryObjectExpr') and classify(type_of(n)) == 'seq':
+            return self.list_construct(n, env, pre)
+        if k == 'CXXMemberCallExpr' and self.wrapper_method(n) is not None:
+            return self.eval_wrapper_call(n, env, pre)
+        if k in ('CXXConstructExpr', 'CXXTemporaryObjectExpr', 'CXXScalarValueInitExpr', 'ImplicitValueInitExpr') and scalar_wrapper(type_of(n)) is not None:
+            return self.wrapper_construct(n, env, pre)
         if k == 'IntegerLiteral':
             v = int(n.get('value'))
             sc = Sc(str(v), 'i')
@@ -1109,6 +1273,10 @@ class Translator:
             return self.eval_unary(n, env, pre)
         if k == 'BinaryOperator':
             return self.eval_binary(n, env, pre)
+        if k == 'ConditionalOperator' and self.spec.get('fold_constant_conditions'):
+            c0 = self.eval_guarded(n['inner'][0], env, 'in the condition of a conditional expression')
+            if c0.ty == 'p' and getattr(c0, 'lit', None) in (True, False):
+                return self.eval(n['inner'][1 if c0.lit else 2], env, pre)
         if k == 'ConditionalOperator':
             c = self.eval(n['inner'][0], env, pre)
             a = self.eval_guarded(n['inner'][1], env, 'inside a conditional expression')
@@ -1146,6 +1314,12 @@ class Translator:
     def read_lvalue_scalar(self, n, env):
         frame = env.frame
         m = strip_noop(n)
+        if self.is_list_index(m):
+            return self.list_get(m, env, None)
+        if m.get('kind') == 'CXXMemberCallExpr' and self.list_method(m) is not None:
+            return self.eval_list_call(m, env, None)
+        if m.get('kind') == 'CXXMemberCallExpr' and self.wrapper_method(m) is not None:
+            return self.eval_wrapper_call(m, env, None)
         if m.get('kind') == 'DeclRefExpr':
             rd = m.get('referencedDecl') or {}
             if rd.get('kind') == 'VarDecl' and not self.is_known_root(rd.get('id'), env) and not self.is_alias(rd.get('id'), env):
@@ -1180,6 +1354,9 @@ class Translator:
                 if self.function_def(cr.get('referencedMemberDecl') or (cr.get('referencedDecl') or {}).get('id')) is not None:
                     return self.eval_call(m, env, pre)
             return self.read_lvalue_scalar(inner, env)
+        if ck == 'IntegralCast' and self.spec.get('unsigned_wrap'):
+            v = self.eval(inner, env, pre)
+            return self.int_convert(v, type_of(inner), type_of(n)) if v is not None and v.ty == 'i' else v
         if ck in NOOP_CASTS or ck in ('IntegralCast', 'ArrayToPointerDecay'):
             return self.eval(inner, env, pre)
         if ck == 'ToVoid':
@@ -1211,6 +1388,13 @@ class Translator:
             if v.ty == 'a' and ty == 'd':
                 return Sc('(DoubleConv.up %s : δ)' % par(v.t), 'd')
             return Sc('(DoubleConv.down %s : α)' % par(v.t), 'a')
+        if ck == 'FloatingToIntegral' and strip_noop(inner).get('kind') == 'FloatingLiteral':
+            fl = strip_noop(inner)
+            loc = (fl.get('range') or {}).get('begin') or {}
+            if self.tu.macro_name(loc) is None:
+                mant, ex = decimal_literal(self.tu.text(loc))
+                if ex == 0:      # an integral floating literal converted to an integer type: the integer itself (exact in C++)
+                    return sc_lit(Sc(str(mant), 'i'), mant)
         if ck == 'FloatingToIntegral':
             v = self.eval(inner, env, pre)
             frame.need('Trunc', v.ty)
@@ -1223,8 +1407,24 @@ class Translator:
     def eval_unary(self, n, env, pre):
         frame = env.frame
         op = n.get('opcode')
+        if op in ('++', '--') and n.get('isPostfix') is False and pre is not None and self.spec.get('incr_encoding', 'inline') == 'let':
+            # spec key `incr_encoding: 'let'`: `++x` as a sub-expression that is evaluated unconditionally: the variable is updated
+            # through a `let`, the new value (the bound name) is the result
+            root, path = self.resolve_lvalue(n['inner'][0], env)
+            cur = self.read_leaf(env, root, path, 'i')
+            if cur.ty != 'i':
+                raise Untranslatable('++/-- on a non-integer')
+            v = Sc('(%s %s 1)' % (par(cur.t), '+' if op == '++' else '-'), 'i')
+            if self.spec.get('unroll_constant_loops') and getattr(cur, 'lit', None) is not None:
+                sc_lit(v, cur.lit + (1 if op == '++' else -1))
+            v = self.uwrap(v, type_of(n['inner'][0]))
+            nm = frame.fresh(path_name(self.root_name(frame, root), path))
+            pre.append(('let', nm, unpar(v.t)))
+            nv = sc_copy_lit(Sc(nm, 'i'), v if self.spec.get('unroll_constant_loops') else None)
+            self.write(env, root, path, nv)
+            return nv
         if op in ('++', '--'):
-            return self.eval_incr(n, env, pre)      # phase 2 (was: untranslatable)
+            return self.eval_incr(n, env, pre)      # (default `incr_encoding: 'inline'`, and every case the 'let' form does not cover)
         v = self.eval(n['inner'][0], env, pre)
         if op == '+':
             return v
@@ -1234,6 +1434,8 @@ class Translator:
                 sc = Sc('(%d)' % (-lit) if lit > 0 else str(-lit), 'i')
                 sc_lit(sc, -lit)
                 return sc
+            if v.ty == 'i':
+                return self.uwrap(Sc('(-%s)' % par(v.t), v.ty), type_of(n))
             frame.need('Neg', v.ty)
             return Sc('(-%s)' % par(v.t), v.ty)
         if op == '!':
@@ -1262,6 +1464,12 @@ class Translator:
                 raise Untranslatable('comparison of different scalar kinds')
             if op in ('>', '>='):
                 a, b = b, a
+            la, lb = getattr(a, 'lit', None), getattr(b, 'lit', None)
+            if a.ty == 'i' and la is not None and lb is not None and self.spec.get('fold_constant_conditions'):
+                # a comparison of two integer constants (template parameters): decided here
+                # (a, b are already swapped for > and >=)
+                val = {'<': la < lb, '>': la < lb, '<=': la <= lb, '>=': la <= lb, '==': la == lb, '!=': la != lb}[op]
+                return sc_lit(Sc('True' if val else 'False', 'p'), val)
             if cls == 'EQ':
                 if a.ty in ('a', 'd'):
                     frame.need('DecidableEq', a.ty)
@@ -1277,7 +1485,7 @@ class Translator:
                 sc = Sc('(%s %s %s)' % (par(a.t), op, par(b.t)), 'i')
                 if la is not None and lb is not None:
                     sc_lit(sc, {'+': la + lb, '-': la - lb, '*': la * lb}[op])
-                return sc
+                return self.uwrap(sc, type_of(n))
             if op == '/':
                 return Sc('(Int.tdiv %s %s)' % (par(a.t), par(b.t)), 'i')
             if op == '%':
@@ -1365,6 +1573,10 @@ class Translator:
 
     def map_ty(self, info, ty, frame):
         """type code of the callee -> type code of the caller"""
+        if ty in ('la', 'ld'):
+            return 'l' + self.map_ty(info, ty[1], frame)
+        if len(ty) == 3 and ty[0] == 'L' and ty[2] in ('a', 'd'):
+            return ty[:2] + self.map_ty(info, ty[2], frame)
         if ty not in ('a', 'd'):
             return ty
         inv = {v: k for k, v in info.float_map.items()}
@@ -1380,6 +1592,28 @@ class Translator:
     def eval_call(self, n, env, pre):
         frame = env.frame
         k = n.get('kind')
+        if k == 'CXXMemberCallExpr' and self.list_method(n) is not None:
+            return self.eval_list_call(n, env, pre)
+        if k == 'CXXMemberCallExpr' and self.wrapper_method(n) is not None:
+            return self.eval_wrapper_call(n, env, pre)
+        if k == 'CXXOperatorCallExpr' and len(n['inner']) == 3 and is_duration(type_of(n['inner'][1])) and \
+                strip_cv(type_of(n['inner'][1])) == strip_cv(type_of(n['inner'][2])):
+            # arithmetic / comparison of two std::chrono::durations of the SAME type: on their counts
+            nm = (self.callee_ref(n).get('referencedDecl') or {}).get('name')
+            if nm in ('operator+', 'operator-') and strip_cv(type_of(n)) == strip_cv(type_of(n['inner'][1])):
+                a = self.eval(n['inner'][1], env, pre)
+                b = self.eval(n['inner'][2], env, pre)
+                return Sc('(%s %s %s)' % (par(a.t), nm[-1], par(b.t)), 'i')
+            if nm in ('operator<', 'operator>', 'operator<=', 'operator>=', 'operator==', 'operator!='):
+                a = self.eval(n['inner'][1], env, pre)
+                b = self.eval(n['inner'][2], env, pre)
+                fmt, cls = self.CMP[nm[len('operator'):]]
+                if nm in ('operator>', 'operator>='):
+                    a, b = b, a
+                return Sc('(' + fmt % (par(a.t), par(b.t)) + ')', 'p')
+        if k == 'CallExpr' and not n['inner'][1:] and is_duration(type_of(n)) and \
+                (self.callee_ref(n).get('referencedDecl') or {}).get('name') == 'zero':
+            return sc_lit(Sc('0', 'i'), 0)      # std::chrono::duration<...>::zero()
         if k == 'CXXOperatorCallExpr':
             callee = self.callee_ref(n)
             nm = (callee.get('referencedDecl') or {}).get('name')
@@ -1425,6 +1659,21 @@ class Translator:
             r2 = self.member_call_phase2(nm, base, bt, n, env, pre)
             if r2 is not NotImplemented:
                 return r2
+            if ('Eigen::' in bt or 'Matrix<' in bt) and nm == 'dot' and len(n['inner']) == 2:
+                # fixed-size vectors: (a0*b0 + a1*b1) + a2*b2, sum taken left to right (trusted reading of Eigen's redux, as for norm())
+                A = self.eval_obj(base, env, pre)
+                B = self.eval_obj(n['inner'][1], env, pre)
+                la_, lb_ = (leaves(A) if isinstance(A, dict) else []), (leaves(B) if isinstance(B, dict) else [])
+                if not la_ or [p for p, _ in la_] != [p for p, _ in lb_]:
+                    raise Untranslatable('dot() of objects without matching known components')
+                ety = self.elem_ctype(bt)
+                acc = None
+                for (_, x), (_, y) in zip(la_, lb_):
+                    if x.ty != y.ty:
+                        raise Untranslatable('dot() of different scalar types')
+                    t = self.arith('*', x, y, ety, frame)
+                    acc = t if acc is None else self.arith('+', acc, t, ety, frame)
+                return acc
             return self.unknown_call(nm, n, env, pre)
         callee = self.callee_ref(n)
         rd = callee.get('referencedDecl') or {}
@@ -1448,6 +1697,12 @@ class Translator:
                 frame.need('Limits', ty)
                 fld = {'epsilon': 'eps', 'max': 'maxVal', 'lowest': 'lowest', 'min': 'minPos'}[m.group(2)]
                 return Sc('(Limits.%s : %s)' % (fld, TY_LEAN[ty]), ty)
+        if nm == 'quiet_NaN' and not args and re.match(r'^\s*(std::)?numeric_limits<\s*(double|float)\s*>::quiet_NaN\s*\(\s*\)\s*$', self.tu.range_text(n)):
+            # a NaN: 0 / 0 (NaN at every IEEE type and at RN; the totalised reals have no NaN: the value is junk there)
+            ty = self.tyvar(frame, type_of(n))
+            frame.need('NatCast', ty)
+            frame.need('Div', ty)
+            return Sc('(((0 : Nat) : %s) / ((0 : Nat) : %s))' % (TY_LEAN[ty], TY_LEAN[ty]), ty)
         if nm in self.spec.get('uninterpreted', {}):
             vs = [self.eval(a, env, pre) for a in args]
             rty = self.tyvar(frame, type_of(n))
@@ -1642,6 +1897,290 @@ class Translator:
             self.write(env, lv[0], list(lv[1]) + list(path), Sc(tuple_proj(base, i, n), self.map_ty(info, ty, frame)))
         return res
 
+    def elem_ctype(self, ctype):
+        m = re.search(r'Matrix<\s*([\w ]+?)\s*,', strip_cv(ctype))
+        if not m:
+            raise Untranslatable('element type of %s' % ctype)
+        return m.group(1)
+
+    def arith(self, op, a, b, ctype, frame):
+        """`a op b` (op in + - *) computed in the C++ scalar type `ctype`"""
+        if a.ty != b.ty:
+            raise Untranslatable('arithmetic on different scalar kinds')
+        if a.ty == 'i':
+            return self.uwrap(Sc('(%s %s %s)' % (par(a.t), op, par(b.t)), 'i'), ctype)
+        frame.need({'+': 'Add', '-': 'Sub', '*': 'Mul'}[op], a.ty)
+        return Sc('(%s %s %s)' % (par(a.t), op, par(b.t)), a.ty)
+
+    # ------------------------------------------------------------------ fixed-width integers (spec option `unsigned_wrap`)
+    def uwrap(self, sc, ctype):
+        """result of `+ - *` / negation computed in the unsigned type `ctype`: reduced modulo 2^width (only when the spec sets
+        `unsigned_wrap`; otherwise, and for signed types — where overflow is undefined behaviour — the unbounded integer)"""
+        if not self.spec.get('unsigned_wrap'):
+            return sc
+        w = uwidth(ctype)
+        if w is None:
+            return sc
+        lit = getattr(sc, 'lit', None)
+        if lit is not None:
+            v = lit % (1 << w)
+            return sc_lit(Sc(str(v), 'i'), v)
+        return Sc('(%s %% %d)' % (par(sc.t), 1 << w), 'i')
+
+    def int_convert(self, v, from_t, to_t):
+        """integral conversion between fixed-width types (spec option `unsigned_wrap`): to an unsigned type modulo 2^width, to a
+        narrower / same-width signed type from a type that does not fit: two's complement (what gcc and clang define)"""
+        wu, ws = uwidth(to_t), swidth(to_t)
+        fu, fs = uwidth(from_t), swidth(from_t)
+        lit = getattr(v, 'lit', None)
+        if wu is not None:
+            if fu is not None and fu <= wu:
+                return v
+            if lit is not None:
+                r = lit % (1 << wu)
+                return sc_lit(Sc(str(r), 'i'), r)
+            if fu is None and fs is None and classify(from_t) == 'uint':
+                return v      # unsigned char / short
+            return Sc('(%s %% %d)' % (par(v.t), 1 << wu), 'i')
+        if ws is not None:
+            fits = (fs is not None and fs <= ws) or (fu is not None and fu < ws) or (fu is None and fs is None)
+            if fits:
+                return v
+            h = 1 << (ws - 1)
+            if lit is not None:
+                r = (lit + h) % (1 << ws) - h
+                return sc_lit(Sc(str(r) if r >= 0 else '(%d)' % r, 'i'), r)
+            return Sc('(((%s + %d) %% %d) - %d)' % (par(v.t), h, 1 << ws, h), 'i')
+        return v
+
+    # ------------------------------------------------------------------ scalar wrappers (std::atomic, std::chrono::duration)
+    def wrapper_method(self, n):
+        if n.get('kind') != 'CXXMemberCallExpr':
+            return None
+        callee = self.callee_ref(n)
+        if callee.get('kind') != 'MemberExpr' or not callee.get('inner'):
+            return None
+        if scalar_wrapper(type_of(callee['inner'][0])) is None:
+            return None
+        return callee.get('name')
+
+    def wrapper_construct(self, n, env, pre):
+        a = [c for c in n.get('inner', []) or [] if c.get('kind') != 'CXXDefaultArgExpr']
+        ty = self.tyvar(env.frame, type_of(n))
+        if not a:      # value-initialisation
+            if ty == 'i':
+                return sc_lit(Sc('0', 'i'), 0)
+            if ty == 'b':
+                return Sc('false', 'b')
+            env.frame.need('NatCast', ty)
+            return Sc('((0 : Nat) : %s)' % TY_LEAN[ty], ty)
+        if len(a) == 1:
+            v = self.eval(a[0], env, pre)
+            if v is not None and v.ty == ty:
+                return v
+            if v is not None and ty == 'b':
+                return self.as_bool(v)
+        raise Untranslatable('constructor of %s with %d arguments' % (strip_cv(type_of(n)), len(a)))
+
+    def eval_wrapper_call(self, n, env, pre):
+        nm = self.wrapper_method(n)
+        callee = self.callee_ref(n)
+        base = callee['inner'][0]
+        bt = type_of(base)
+        args = [c for c in n['inner'][1:] if c.get('kind') != 'CXXDefaultArgExpr']
+        if is_duration(bt) and nm == 'count' and not args:
+            return self.eval(base, env, pre)
+        if is_atomic(bt) and (nm == 'load' or nm.startswith('operator ')) and not args:      # load() / implicit conversion
+            return self.eval(base, env, pre) if strip_noop(base).get('valueCategory') != 'lvalue' else self.read_lvalue_scalar(base, env)
+        if is_atomic(bt) and nm == 'store' and len(args) == 1:
+            if pre is None:
+                raise Untranslatable('atomic store inside an expression')
+            v = self.eval(args[0], env, pre)
+            root, path = self.resolve_lvalue(base, env)
+            ty = self.tyvar(env.frame, bt)
+            v = self.coerce(v, ty)
+            nmv = env.frame.fresh(path_name(self.root_name(env.frame, root), path))
+            pre.append(('let', nmv, unpar(v.t)))
+            self.write(env, root, path, Sc(nmv, ty))
+            return None
+        raise Untranslatable('member function `%s` of %s' % (nm, strip_cv(bt)))
+
+    # ------------------------------------------------------------------ sequence containers as lists: std::queue / std::deque, and
+    # std::vector in the 'plain' encoding (`vector_encoding`) — classify() == 'seq'
+    def list_method(self, n):
+        """name of the member function when `n` is a member call on a std::vector / std::queue / std::deque translated as a list"""
+        if n.get('kind') != 'CXXMemberCallExpr':
+            return None
+        callee = self.callee_ref(n)
+        if callee.get('kind') != 'MemberExpr' or not callee.get('inner'):
+            return None
+        if classify(type_of(callee['inner'][0])) != 'seq':
+            return None
+        return callee.get('name')
+
+    def is_list_index(self, m):
+        if m.get('kind') != 'CXXOperatorCallExpr' or len(m.get('inner', [])) != 3:
+            return False
+        if (self.callee_ref(m).get('referencedDecl') or {}).get('name') != 'operator[]':
+            return False
+        return classify(type_of(m['inner'][1])) == 'seq'
+
+    def list_value(self, base, env):
+        """(root, path, type code, current value) of a list-typed lvalue"""
+        root, path = self.resolve_lvalue(base, env)
+        lty = self.tyvar(env.frame, type_of(base))
+        return root, path, lty, self.read_leaf(env, root, path, lty)
+
+    def local_pre(self, pre, lp, what):
+        if lp:
+            if pre is None:
+                raise Untranslatable('call with a tuple / Option result inside %s' % what)
+            pre.extend(lp)
+
+    def nat_index(self, v):
+        if v.ty != 'i':
+            raise Untranslatable('list index that is not an integer')
+        lit = getattr(v, 'lit', None)
+        if lit is not None and lit >= 0:
+            return str(lit)
+        return '(Int.toNat %s)' % par(v.t)
+
+    def elem_default(self, frame, ety):
+        if ety == 'i':
+            return '0'
+        frame.need('NatCast', ety)
+        return '((0 : Nat) : %s)' % TY_LEAN[ety]
+
+    def list_get(self, m, env, pre):
+        """`v[i]`: `v.getD i 0` (an out-of-range access is undefined behaviour in C++: the default stands for it); for opaque elements
+        the checked read `v[i]?` (only as a returned value)"""
+        lp = []
+        root, path, lty, cur = self.list_value(m['inner'][1], env)
+        i = self.eval(m['inner'][2], env, lp)
+        self.local_pre(pre, lp, 'a list index')
+        if lty == 'le':
+            return Sc('(%s[%s]?)' % (par(cur.t), unpar(self.nat_index(i))), 'oe')
+        return Sc('(List.getD %s %s %s)' % (par(cur.t), self.nat_index(i), self.elem_default(env.frame, lty[1])), lty[1])
+
+    def eval_elem(self, n, ety, env, pre):
+        """a value stored into a list: a scalar of the element type, or (opaque elements) a plain copy of an lvalue"""
+        if ety != 'e':
+            v = self.eval(n, env, pre)
+            if v.ty != ety:
+                raise Untranslatable('list element of a different scalar kind')
+            return v
+        m = strip_noop(n)
+        while m.get('kind') in ('ImplicitCastExpr', 'CXXConstructExpr') and m.get('inner') and len(m['inner']) == 1:
+            m = strip_noop(m['inner'][0])
+        if m.get('valueCategory') == 'lvalue' and m.get('kind') in ('DeclRefExpr', 'MemberExpr') and not self.is_list_index(m):
+            root, path = self.resolve_lvalue(m, env)
+            if isinstance(self.lookup(env, root, path), dict):
+                raise Untranslatable('aggregate used both as a whole (list element) and by component')
+            return self.read_leaf(env, root, path, 'e')
+        raise Untranslatable('list element value that is not a plain copy of a variable')
+
+    def list_construct(self, n, env, pre):
+        a = [c for c in n.get('inner', []) or [] if c.get('kind') != 'CXXDefaultArgExpr']
+        lty = self.tyvar(env.frame, type_of(n))
+        if not a:
+            return Sc('([] : %s)' % TY_LEAN[lty], lty)
+        if len(a) == 1 and classify(type_of(a[0])) == 'seq':
+            v = self.eval(a[0], env, pre)
+            if v.ty != lty:
+                raise Untranslatable('container copy between different element types')
+            return v
+        raise Untranslatable('container constructor with %d arguments' % len(a))
+
+    def list_store(self, env, pre, root, path, lty, term):
+        nm = env.frame.fresh(path_name(self.root_name(env.frame, root), path))
+        pre.append(('let', nm, unpar(term)))
+        self.write(env, root, path, Sc(nm, lty))
+
+    def eval_list_call(self, n, env, pre):
+        """member functions of a sequence container translated as a list (front of a queue = head of the list)"""
+        frame = env.frame
+        nm = self.list_method(n)
+        callee = self.callee_ref(n)
+        base = callee['inner'][0]
+        args = n['inner'][1:]
+        lp = []
+        if nm == 'clear' and not args and pre is not None:      # overwrites: the old contents are not read
+            root, path = self.resolve_lvalue(base, env)
+            lty = self.tyvar(frame, type_of(base))
+            self.list_store(env, pre, root, path, lty, '([] : %s)' % TY_LEAN[lty])
+            return None
+        root, path, lty, cur = self.list_value(base, env)
+        ety = lty[1]
+        if nm == 'size' and not args:
+            return Sc('((List.length %s : Nat) : Int)' % par(cur.t), 'i')
+        if nm == 'empty' and not args:
+            return Sc('(List.length %s = 0)' % par(cur.t), 'p')
+        if nm in ('front', 'back') and not args:
+            if ety == 'e':
+                raise Untranslatable('%s() of a container of opaque elements' % nm)
+            if nm == 'front':
+                return Sc('(List.getD %s 0 %s)' % (par(cur.t), self.elem_default(frame, ety)), ety)
+            return Sc('(List.getD %s (List.length %s - 1) %s)' % (par(cur.t), par(cur.t), self.elem_default(frame, ety)), ety)
+        if nm == 'at' and len(args) == 1 and ety != 'e':
+            i = self.eval(args[0], env, lp)
+            self.local_pre(pre, lp, 'a list index')
+            return Sc('(List.getD %s %s %s)' % (par(cur.t), self.nat_index(i), self.elem_default(frame, ety)), ety)
+        if nm in ('reserve', 'shrink_to_fit'):
+            return None      # capacity only: no effect on the contents
+        # mutators: only as statements
+        if pre is None:
+            raise Untranslatable('container mutation `%s` inside an expression' % nm)
+        if nm in ('push_back', 'push', 'emplace_back') and len(args) == 1:
+            x = self.eval_elem(args[0], ety, env, pre)
+            self.list_store(env, pre, root, path, lty, '(%s ++ [%s])' % (par(cur.t), unpar(x.t)))
+            return None
+        if nm == 'resize' and len(args) == 1 and ety != 'e':
+            # resize(n): the first n elements, then value-initialised (zero) elements
+            nn = self.eval(args[0], env, pre)
+            k_ = self.nat_index(nn)
+            self.list_store(env, pre, root, path, lty, '(List.take %s %s ++ List.replicate (%s - List.length %s) %s)' % (
+                k_, par(cur.t), k_, par(cur.t), self.elem_default(frame, ety)))
+            return None
+        if nm in ('pop', 'pop_front') and not args:
+            self.list_store(env, pre, root, path, lty, '(List.drop 1 %s)' % par(cur.t))
+            return None
+        if nm == 'pop_back' and not args:
+            self.list_store(env, pre, root, path, lty, '(List.dropLast %s)' % par(cur.t))
+            return None
+        raise Untranslatable('container member function `%s`' % nm)
+
+    def exec_list_assign(self, lhs, rhs, op, node, env, k):
+        """`v[i] = x` / `v[i] op= x`: `v.set i x`"""
+        frame = env.frame
+        pre = []
+        root, path, lty, cur = self.list_value(lhs['inner'][1], env)
+        ety = lty[1]
+        i = self.eval(lhs['inner'][2], env, pre)
+        it = self.nat_index(i)
+        if op:
+            if ety == 'e':
+                raise Untranslatable('compound assignment on an opaque list element')
+            old = Sc('(List.getD %s %s %s)' % (par(cur.t), it, self.elem_default(frame, ety)), ety)
+            v = self.eval(rhs, env, pre)
+            if v.ty != ety:
+                raise Untranslatable('compound assignment on a list element with mixed operand types')
+            if ety == 'i':
+                t = {'+': '(%s + %s)', '-': '(%s - %s)', '*': '(%s * %s)'}.get(op)
+                if not t:
+                    raise Untranslatable('compound operator %s= on a list element' % op)
+                x = self.uwrap(Sc(t % (par(old.t), par(v.t)), 'i'), type_of(lhs))
+            else:
+                cls = {'+': 'Add', '-': 'Sub', '*': 'Mul', '/': 'Div'}.get(op)
+                if not cls:
+                    raise Untranslatable('compound operator %s= on a list element' % op)
+                frame.need(cls, ety)
+                x = Sc('(%s %s %s)' % (par(old.t), op, par(v.t)), ety)
+        else:
+            x = self.eval_elem(rhs, ety, env, pre)
+        # the list is read again AFTER the right-hand side was evaluated (it cannot have changed: mutators are statements)
+        self.list_store(env, pre, root, path, lty, '(List.set %s %s %s)' % (par(cur.t), it, unpar(x.t) if atomic(x.t) else x.t))
+        return self.wrap(pre, k(env))
+
     # ------------------------------------------------------------------ aggregates
     def eigen_product(self, an, bn, env, pre):
         """fixed-size Eigen product A * B: coefficient (i,j) = (a_i0*b_0j + a_i1*b_1j) + a_i2*b_2j (sum taken left to right —
@@ -1696,6 +2235,8 @@ class Translator:
             return self.eval(n, env, pre)
         m = strip_noop(n)
         k = m.get('kind')
+        if self.is_list_index(m):
+            return self.list_get(m, env, pre)
         r2 = self.eval_obj_phase2(m, k, ct, env, pre)
         if r2 is not None:
             return r2
@@ -1761,8 +2302,8 @@ class Translator:
                 return res
         raise Untranslatable('unsupported aggregate expression %s of type %s' % (k, strip_cv(ct)))
 
-    # ================================================================== phase 2 (builder b1): Eigen coefficient-wise expressions,
-    # std::vector of scalars as `List`, unrolled / counted `for` loops
+    # ================================================================== Eigen coefficient-wise expressions, std::vector of scalars in
+    # the 'checked' encoding (`vector_encoding`), unrolled / counted `for` loops
     EIG_BIN = {'operator+': ('+', 'Add'), 'operator-': ('-', 'Sub'), 'operator*': ('*', 'Mul'), 'operator/': ('/', 'Div')}
     EIG_CMP = {'operator<': '<', 'operator<=': '<=', 'operator>': '>', 'operator>=': '>=', 'operator==': '==', 'operator!=': '!='}
     VEC_MUTATORS = ('resize', 'clear', 'push_back', 'assign')
@@ -1936,10 +2477,17 @@ class Translator:
             frame.need('Decidable' + cls, a.ty)
         return Sc('(' + fmt % (par(a.t), par(b.t)) + ')', 'p')
 
-    def sc_arith(self, op, cls, a, b, frame):
+    def wrap_ctype(self, ct):
+        """C++ coefficient type of the Eigen (expression) type `ct` when integer results must be reduced to it (spec option
+        `unsigned_wrap`); None without the option"""
+        return self.eigen_keys(ct)[1] if self.spec.get('unsigned_wrap') else None
+
+    def sc_arith(self, op, cls, a, b, frame, ctype=None):
+        """`a op b` on two coefficients of the same kind; `ctype` = the C++ type it is computed in (see wrap_ctype)"""
         if a.ty == 'i':
             if op in ('+', '-', '*'):
-                return Sc('(%s %s %s)' % (par(a.t), op, par(b.t)), 'i')
+                r = Sc('(%s %s %s)' % (par(a.t), op, par(b.t)), 'i')
+                return self.uwrap(r, ctype) if ctype is not None else r
             return Sc('(Int.tdiv %s %s)' % (par(a.t), par(b.t)), 'i')
         frame.need(cls, a.ty)
         return Sc('(%s %s %s)' % (par(a.t), op, par(b.t)), a.ty)
@@ -2027,7 +2575,8 @@ class Translator:
                 op, cls = ('*', 'Mul') if nm == 'cwiseProduct' else ('/', 'Div')
                 A = self.eval_obj(base, env, pre)
                 B = self.eval_obj(args[0], env, pre)
-                return self.cwise2(A, B, lambda a, b: self.sc_arith(op, cls, a, b, frame), frame)
+                wt = self.wrap_ctype(ct)
+                return self.cwise2(A, B, lambda a, b: self.sc_arith(op, cls, a, b, frame, wt), frame)
             return None
         if k == 'CallExpr':
             callee = self.callee_ref(m)
@@ -2049,7 +2598,8 @@ class Translator:
             if nm in self.EIG_BIN and len(ops) == 2 and 'CwiseBinaryOp<' in ct and 'Product<' not in ct.split('CwiseBinaryOp<')[0]:
                 op, cls = self.EIG_BIN[nm]
                 A, B = self.cwise_operands(ops[0], ops[1], env, pre)
-                return self.cwise2(A, B, lambda a, b: self.sc_arith(op, cls, a, b, frame), frame)
+                wt = self.wrap_ctype(ct)
+                return self.cwise2(A, B, lambda a, b: self.sc_arith(op, cls, a, b, frame, wt), frame)
             if nm in self.EIG_CMP and len(ops) == 2 and 'CwiseBinaryOp<' in ct:
                 op = self.EIG_CMP[nm]
                 A, B = self.cwise_operands(ops[0], ops[1], env, pre)
@@ -2062,6 +2612,8 @@ class Translator:
                 for kk, v in obj.items():
                     frame.need('Neg', v.ty)
                     res[kk] = Sc('(-%s)' % par(v.t), v.ty)
+                    if v.ty == 'i' and self.spec.get('unsigned_wrap'):
+                        res[kk] = self.uwrap(res[kk], self.wrap_ctype(ct))
                 return res
             return None
         return None
@@ -2149,13 +2701,14 @@ class Translator:
                     acc = '(%s ∧ %s)' % (par(acc), par(self.as_prop(sc)))
                 return Sc(acc, 'p')
             acc = lv[0][1]
+            wt = self.wrap_ctype(bt)
             for _, sc in lv[1:]:      # Eigen's default (unvectorised, left-to-right) redux — trusted reading, as for norm()
                 if sc.ty != acc.ty:
                     raise Untranslatable('reduction over different scalar types')
                 if nm == 'sum':
-                    acc = self.sc_arith('+', 'Add', acc, sc, frame)
+                    acc = self.sc_arith('+', 'Add', acc, sc, frame, wt)
                 elif nm == 'prod':
-                    acc = self.sc_arith('*', 'Mul', acc, sc, frame)
+                    acc = self.sc_arith('*', 'Mul', acc, sc, frame, wt)
                 else:
                     acc = self.sc_minmax('min' if nm == 'minCoeff' else 'max', acc, sc, frame)
             return acc
@@ -2248,7 +2801,7 @@ class Translator:
         """std::vector of scalars, or of small fixed-size vectors of one scalar type"""
         if classify(ctype) == 'list':
             return True
-        if vec_elem(ctype) is None or classify(vec_elem(ctype)) != 'agg':
+        if LIST_OPTS['encoding'] != 'checked' or vec_elem(ctype) is None or classify(vec_elem(ctype)) != 'agg':
             return False
         try:
             sh = self.shape_of(vec_elem(ctype))
@@ -2376,7 +2929,7 @@ class Translator:
             return None
         return v, la, lb
 
-    def exec_unrolled(self, st, body, env, k):
+    def exec_unrolled_for(self, st, body, env, k):
         v, la, lb = st
         vid = v['id']
         env = env.copy()
@@ -2500,7 +3053,7 @@ class Translator:
             init, _, cond, inc, body = inner
             st = self.static_for(init, cond, inc, body, env)      # phase 2: constant trip count -> unrolled
             if st is not None:
-                return self.exec_unrolled(st, body, env, k)
+                return self.exec_unrolled_for(st, body, env, k)
             cv = self.counted_for(init, cond, inc, body)          # phase 2: `for (T i = a; i < b; ++i)` -> recursion on the trip count
             if cv is not None:
                 return self.exec_stmt(init, env, lambda e: self.exec_loop(cond, body, inc, e, k, counted=cv))
@@ -2508,6 +3061,8 @@ class Translator:
             if init:
                 return self.exec_stmt(init, env, go)
             return go(env)
+        if kind in ('BreakStmt', 'ContinueStmt') and getattr(self, 'cur_unroll', None) is not None and self.cur_unroll['frame'] is env.frame:
+            return self.cur_unroll['break' if kind == 'BreakStmt' else 'continue'](env)
         if kind == 'BreakStmt':
             if env.frame.kind != 'loop':
                 raise Untranslatable('break outside a translated loop')
@@ -2536,6 +3091,8 @@ class Translator:
             if nm == 'operator=' and strip_noop(s['inner'][1]).get('kind') == 'CXXMemberCallExpr' \
                     and self.callee_ref(strip_noop(s['inner'][1])).get('name') == 'block':      # phase 2
                 return self.block_assign(s['inner'][1], s['inner'][2], env, k)
+            if nm == 'operator=' and self.is_list_index(strip_noop(s['inner'][1])):
+                return self.exec_list_assign(strip_noop(s['inner'][1]), s['inner'][2], None, s, env.copy(), k)
             if nm == 'operator=':
                 pre = []
                 obj = self.eval_obj(s['inner'][2], env, pre)
@@ -2550,7 +3107,8 @@ class Translator:
                 A, B = self.cwise_operands(s['inner'][1], s['inner'][2], e2, pre)
                 if 'Product<' in type_of(s['inner'][2]) or not isinstance(A, dict):
                     raise Untranslatable('operator call statement %s with a matrix product' % nm)
-                obj = self.cwise2(A, B, lambda a, b: self.sc_arith(op, cls, a, b, e2.frame), e2.frame)
+                wt = self.wrap_ctype(type_of(s['inner'][1]))
+                obj = self.cwise2(A, B, lambda a, b: self.sc_arith(op, cls, a, b, e2.frame, wt), e2.frame)
                 root, path = self.resolve_lvalue(s['inner'][1], e2)
                 return self.wrap(pre, self.bind_obj(e2, root, path, obj, k))
             raise Untranslatable('operator call statement %s' % nm)
@@ -2568,7 +3126,7 @@ class Translator:
         if isinstance(obj, Sc):
             nm = frame.fresh(path_name(self.root_name(frame, root), path))
             lets.append((nm, obj.t))
-            self.write(env, root, path, Sc(nm, obj.ty))
+            self.write(env, root, path, sc_copy_lit(Sc(nm, obj.ty), obj if self.spec.get('unroll_constant_loops') else None))
         else:
             new = {}
             for p, sc in leaves(obj):
@@ -2635,7 +3193,7 @@ class Translator:
         ty = self.tyvar(frame, ct)
         sc = self.coerce(sc, ty)
         nm = frame.fresh(name)
-        env.vars[vid] = sc_copy_lit(Sc(nm, ty), sc if 'const' in qt else None)
+        env.vars[vid] = sc_copy_lit(Sc(nm, ty), sc if ('const' in qt or self.spec.get('unroll_constant_loops')) else None)
         return self.wrap(pre, ('let', nm, unpar(sc.t), k(env)))
 
     def promote(self, v, frame, to_ctype):
@@ -2673,6 +3231,8 @@ class Translator:
         pre = []
         if self.is_vec_elem(lhs):      # phase 2: `v[i] = x` on a std::vector of scalars
             return self.exec_vec_assign(lhs, rhs, op, node, env, k)
+        if self.is_list_index(strip_noop(lhs)):
+            return self.exec_list_assign(strip_noop(lhs), rhs, op, node, env, k)
         if classify(lt) == 'agg':
             if op:
                 raise Untranslatable('compound assignment on an aggregate')
@@ -2692,7 +3252,9 @@ class Translator:
                 t = {'+': '(%s + %s)', '-': '(%s - %s)', '*': '(%s * %s)', '/': '(Int.tdiv %s %s)', '%': '(Int.tmod %s %s)'}.get(op)
                 if not t:
                     raise Untranslatable('compound operator %s=' % op)
-                r = Sc(t % (par(a.t), par(v.t)), 'i')
+                r = self.uwrap(Sc(t % (par(a.t), par(v.t)), 'i'), comp_t) if op in ('+', '-', '*') else Sc(t % (par(a.t), par(v.t)), 'i')
+                if self.spec.get('unsigned_wrap'):
+                    r = self.int_convert(r, comp_t, lt)
             else:
                 cls = {'+': 'Add', '-': 'Sub', '*': 'Mul', '/': 'Div'}.get(op)
                 if not cls:
@@ -2713,6 +3275,9 @@ class Translator:
         if cur.ty != 'i' or classify(type_of(n['inner'][0])) not in ('int', 'uint'):
             raise Untranslatable('++/-- on a non-integer inside an expression')
         new = Sc('(%s %s 1)' % (par(cur.t), '+' if n.get('opcode') == '++' else '-'), 'i')
+        if self.spec.get('unroll_constant_loops') and getattr(cur, 'lit', None) is not None:
+            sc_lit(new, cur.lit + (1 if n.get('opcode') == '++' else -1))
+        new = self.uwrap(new, type_of(n['inner'][0]))      # (spec option `unsigned_wrap`)
         self.write(env, root, path, new)
         return cur if n.get('isPostfix') else new
 
@@ -2731,6 +3296,9 @@ class Translator:
         if cur.ty != 'i':
             raise Untranslatable('++/-- on a non-integer')
         v = Sc('(%s %s 1)' % (par(cur.t), '+' if s.get('opcode') == '++' else '-'), 'i')
+        if self.spec.get('unroll_constant_loops') and getattr(cur, 'lit', None) is not None:
+            sc_lit(v, cur.lit + (1 if s.get('opcode') == '++' else -1))
+        v = self.uwrap(v, type_of(s['inner'][0]))
         return self.bind_obj(env, root, path, v, k)
 
     # ---- if
@@ -2748,7 +3316,13 @@ class Translator:
             return self.exec_if({'kind': 'IfStmt', 'inner': [cn['inner'][0], inner_if] + tail}, env, k)
         pre = []
         env = env.copy()
-        c = self.as_prop(self.eval(cond_n, env, pre))
+        cv = self.eval(cond_n, env, pre)
+        if cv.ty == 'p' and getattr(cv, 'lit', None) in (True, False) and not pre:      # statically decided (`if (DIM == 3)`)
+            if cv.lit:
+                return ('note', 'condition `%s` is true at compile time' % self.tu.range_text(cond_n).strip(), self.exec_stmt(then_n, env, k))
+            tree = self.exec_stmt(else_n, env, k) if else_n is not None else k(env)
+            return ('note', 'condition `%s` is false at compile time: branch not taken' % self.tu.range_text(cond_n).strip(), tree)
+        c = self.as_prop(cv)
         ctl = ('ReturnStmt', 'WhileStmt', 'DoStmt', 'ForStmt', 'BreakStmt', 'ContinueStmt')
         dup = self.contains(then_n, ctl) or (else_n is not None and self.contains(else_n, ctl))
         if not dup:
@@ -2944,6 +3518,27 @@ class Translator:
             if kd == 'CXXMemberCallExpr' and self.callee_ref(n).get('name') in self.VEC_MUTATORS and self.callee_ref(n).get('inner') \
                     and self.is_list(type_of(self.callee_ref(n)['inner'][0])):
                 tgt = self.callee_ref(n)['inner'][0]
+            if tgt is not None and self.is_list_index(strip_noop(tgt)):      # `v[i] = x` on a container: the container is carried
+                bn = strip_noop(tgt)['inner'][1]
+                if root_decl(bn) not in declared:
+                    root, path, _, _ = self.list_value(bn, env)      # (reads it: a member gets its value before the loop)
+                    found.append((root, tuple(path)))
+                tgt = None
+            if kd == 'CXXMemberCallExpr' and self.list_method(n) in ('push_back', 'push', 'emplace_back', 'pop', 'pop_front', 'pop_back',
+                                                                     'clear', 'resize'):
+                bn = self.callee_ref(n)['inner'][0]
+                if root_decl(bn) not in declared:
+                    root, path, _, _ = self.list_value(bn, env)
+                    found.append((root, tuple(path)))
+            if tgt is not None and root_decl(tgt) not in declared and self.spec.get('unroll_constant_loops') and \
+                    strip_noop(tgt).get('kind') == 'CXXOperatorCallExpr' and len(strip_noop(tgt).get('inner', [])) == 3 and \
+                    'Matrix<' in type_of(strip_noop(tgt)['inner'][1]) and self.index_unknown(strip_noop(tgt)['inner'][2], env):
+                # `v[a] = …` with an index that is only known while the enclosing (unrolled) loop is executed: every component of v
+                bn = strip_noop(tgt)['inner'][1]
+                root, path = self.resolve_lvalue(bn, env)
+                for p_, st in self.shape_of(type_of(bn)):
+                    found.append((root, tuple(path) + tuple(p_)))
+                tgt = None
             if tgt is not None and root_decl(tgt) not in declared:
                 root, path = self.resolve_lvalue(tgt, env)
                 if classify(type_of(tgt)) == 'agg':
@@ -2978,6 +3573,23 @@ class Translator:
                 out.append(f)
         return out
 
+    def index_unknown(self, n, env):
+        m = strip_noop(n)
+        while m.get('kind') == 'ImplicitCastExpr' and m.get('inner'):
+            m = strip_noop(m['inner'][-1])
+        if m.get('kind') == 'DeclRefExpr' and (m.get('referencedDecl') or {}).get('kind') == 'VarDecl':
+            rid = (m.get('referencedDecl') or {}).get('id')
+            e = env
+            while e is not None and rid not in e.vars and rid not in e.local_roots:
+                e = e.outer
+            if e is None:
+                return True      # a variable that is declared inside the loop: no value yet
+        try:
+            self.const_int(n, env.copy())
+            return False
+        except Untranslatable:
+            return True
+
     def exec_loop(self, cond_n, body_n, inc_n, env, k, counted=None):
         """`while (cond) body` / `for (;cond;inc) body` (cond / inc may be None); `break` and `continue` inside are supported,
         `return` is not. `counted` = decl id of the loop variable of a `for (T i = a; i < b; ++i)` whose body neither assigns
@@ -2985,6 +3597,8 @@ class Translator:
         instead of on fuel and does not test the condition (it holds exactly for that many iterations)."""
         frame = env.frame
         top = frame.top()
+        if self.spec.get('unroll_constant_loops') and cond_n and self.constant_condition(cond_n, env) is not None:
+            return self.exec_unrolled_cond(cond_n, body_n, inc_n, env, k)
         if self.contains(body_n, ('ReturnStmt', 'GotoStmt')):
             raise Untranslatable('return inside a loop')
         env = env.copy()
@@ -3086,6 +3700,55 @@ class Translator:
             tree = ('let', nm, t, tree)
         return ('bind', r, term, tree)
 
+    # ---- loops whose condition is decided at translation time (`for (size_t a = 0; a < DIM; ++a)`): unrolled
+    def constant_condition(self, cond_n, env):
+        try:
+            pc = []
+            cv = self.eval(cond_n, env.copy(), pc)
+        except Untranslatable:
+            return None
+        if pc or cv is None or cv.ty != 'p' or getattr(cv, 'lit', None) not in (True, False):
+            return None
+        return cv.lit
+
+    def exec_unrolled_cond(self, cond_n, body_n, inc_n, env, k):
+        """the loop condition is a comparison of constants on entry (spec option `unroll_constant_loops`; needs
+        `fold_constant_conditions`): the iterations are executed one after the other; `break` / `continue` jump to the code after the
+        loop / to the increment. The condition must stay decidable on every pass."""
+        outer = getattr(self, 'cur_unroll', None)
+
+        def with_outer(f):
+            def g(e):
+                saved = getattr(self, 'cur_unroll', None)
+                self.cur_unroll = outer
+                try:
+                    return f(e)
+                finally:
+                    self.cur_unroll = saved
+            return g
+
+        def after_body(e, i):
+            if inc_n:
+                return self.exec_stmt(inc_n, e, lambda e2: iteration(e2, i + 1))
+            return iteration(e, i + 1)
+
+        def iteration(e, i):
+            if i > 16:
+                raise Untranslatable('loop with a constant condition runs more than 16 times')
+            c = self.constant_condition(cond_n, e)
+            if c is None:
+                raise Untranslatable('loop condition is a constant on entry but not on pass %d' % i)
+            if not c:
+                return ('note', 'loop `%s` unrolled: %d pass(es)' % (self.tu.range_text(cond_n).strip(), i), k(e))
+            entry = {'frame': e.frame, 'break': with_outer(k), 'continue': with_outer(lambda e2: after_body(e2, i))}
+            saved = getattr(self, 'cur_unroll', None)
+            self.cur_unroll = entry
+            try:
+                return self.exec_stmt(body_n, e, with_outer(lambda e2: after_body(e2, i)))
+            finally:
+                self.cur_unroll = saved
+        return with_outer(lambda e: iteration(e, 0))(env)
+
     # ------------------------------------------------------------------ rendering
     def render(self, tree, ind):
         pad = ' ' * ind
@@ -3132,6 +3795,8 @@ class Translator:
             tvs.append('α')
         if 'd' in tys or conv:
             tvs.append('δ')
+        if any('τ' in TY_LEAN.get(ty, ty) for ty in tys):
+            tvs.append('τ')
         s = ''
         if tvs:
             s += ' {%s : Type}' % ' '.join(tvs)
@@ -3159,8 +3824,8 @@ class Translator:
                     c = classify(q)
                     if c in ('double', 'float'):
                         found.add(c)
-                    elif c in ('agg', 'list'):      # phase 2: Eigen matrices / arrays / std::vector of float or double
-                        for em in re.finditer(r'\b(?:Matrix|Array|vector)<\s*(float|double)\b', q):
+                    elif c in ('agg', 'list', 'seq'):      # Eigen matrices / arrays / standard containers of float or double
+                        for em in re.finditer(r'\b(?:Matrix|Array|vector|queue|deque)<\s*(float|double)\b', q):
                             found.add(em.group(1))
             for c in n.get('inner', []) or []:
                 if isinstance(c, dict):
@@ -3326,7 +3991,7 @@ class Translator:
                 e = e.copy()
                 obj = self.eval_obj(ini['inner'][0], e, pre)
                 if isinstance(obj, Sc):
-                    obj = self.coerce(obj, self.tyvar(frame, (ini['anyInit'].get('type') or {}).get('qualType', '')))
+                    obj = self.coerce(obj, self.tyvar(frame, (ini['anyInit'].get('type') or {}).get('desugaredQualType') or (ini['anyInit'].get('type') or {}).get('qualType', '')))
                 return self.wrap(pre, self.bind_obj(e, 'this', [fld], obj, lambda e2: run_inits(i + 1, e2)))
             tree = run_inits(0, env)
             prev = frame
@@ -3390,13 +4055,20 @@ HEADER = """/-! GENERATED by tools/cxx2lean.py from the CURRENT source of /repo 
 def translate(repo, scratch, spec):
     """returns (lean text, info). spec: dict(id=, sources=[repo-relative .cpp], headers=[...], extra=[C++ lines],
     functions=[dict(cxx=qualified name suffix, sig=substring of the type (optional), targs=template args (optional),
-    suffix=lean name suffix (optional))], imports=[...], opens=[...], externs={...})"""
+    record= / cls= class template specialisation (optional), suffix=lean name suffix (optional), outputs=[...] (optional))],
+    imports=[...], opens=[...], externs={...}, and the spec-wide options listed at the end of the module docstring)"""
     pid = spec['id']
     info = {'translated': {}, 'untranslatable': {}}
     blocks = []
     imports = ['RomeaModel.Scalar'] + list(spec.get('imports', []))
     head = HEADER % {'id': pid, 'srcs': ', '.join(list(spec.get('sources', [])) + list(spec.get('headers', [])))}
     pre = '\n'.join('import ' + m for m in imports) + '\n' + head + 'set_option linter.unusedVariables false\n\nnamespace Romea.Src.%s\nopen Romea %s\n' % (pid, ' '.join(spec.get('opens', [])))
+    LIST_OPTS['opaque'] = bool(spec.get('opaque_elements'))
+    LIST_OPTS['encoding'] = spec.get('vector_encoding', 'checked')
+    if LIST_OPTS['encoding'] not in ('checked', 'plain'):
+        raise ValueError("spec key `vector_encoding` must be 'checked' or 'plain'")
+    if spec.get('incr_encoding', 'inline') not in ('inline', 'let'):
+        raise ValueError("spec key `incr_encoding` must be 'inline' or 'let'")
     try:
         tu = TU(repo, scratch, spec)
         tr = Translator(tu, spec)
@@ -3408,7 +4080,7 @@ def translate(repo, scratch, spec):
     for f in spec['functions']:
         cxx = f['cxx']
         try:
-            cands = tu.find_function(cxx, f.get('sig'), f.get('targs'), f.get('record'))
+            cands = tu.find_function(cxx, f.get('sig'), f.get('targs'), f.get('record'), f.get('cls'))
             if not cands:
                 raise Untranslatable('no definition of `%s`%s found in the translation unit' % (cxx, (' with signature containing `%s`' % f['sig']) if f.get('sig') else ''))
             if len(cands) > 1:
